@@ -4,11 +4,12 @@ package symgo
 // conversions (encoding/json, sigs.k8s.io/json, sigs.k8s.io/yaml on blobs, DefaultUnstructuredConverter).
 
 import (
-	"go/token"
 	stdjson "encoding/json"
 	"fmt"
+	"go/token"
 	"go/types"
 	"reflect"
+	sigsyaml "sigs.k8s.io/yaml"
 	"sort"
 	"strings"
 	"time"
@@ -868,12 +869,36 @@ func registerJSONIntrinsics(e *Engine) {
 	e.reg("encoding/json.Marshal", marshal)
 	e.reg("encoding/json.Unmarshal", unmarshal)
 	e.reg("sigs.k8s.io/yaml.Marshal", marshal)
-	e.reg("sigs.k8s.io/yaml.Unmarshal", func(fr *frame, args []value) value {
-		return unmarshal(fr, args[:2])
-	})
-	e.reg("sigs.k8s.io/yaml.UnmarshalStrict", func(fr *frame, args []value) value {
-		return unmarshal(fr, args[:2])
-	})
+	// YAML: concrete bytes are converted by the real sigs.k8s.io/yaml (linked into the engine) and then take the JSON
+	// path; blobs are JSON already (YAML is a superset).
+	yamlUnmarshal := func(strict bool) intrinsic {
+		return func(fr *frame, args []value) value {
+			if b, ok := args[0].([]value); ok {
+				bs := make([]byte, len(b))
+				for k := range b {
+					c, ok := b[k].(byte)
+					if !ok {
+						panic(unsupported("yaml.Unmarshal of symbolic bytes"))
+					}
+					bs[k] = c
+				}
+				var j []byte
+				var err error
+				if strict {
+					j, err = sigsyaml.YAMLToJSONStrict(bs)
+				} else {
+					j, err = sigsyaml.YAMLToJSON(bs)
+				}
+				if err != nil {
+					return fr.i.mkError("error converting YAML to JSON: " + err.Error())
+				}
+				return unmarshal(fr, []value{&blob{text: string(j)}, args[1]})
+			}
+			return unmarshal(fr, args[:2])
+		}
+	}
+	e.reg("sigs.k8s.io/yaml.Unmarshal", yamlUnmarshal(false))
+	e.reg("sigs.k8s.io/yaml.UnmarshalStrict", yamlUnmarshal(true))
 	e.reg("k8s.io/apimachinery/pkg/util/json.Marshal", marshal)
 	e.reg("k8s.io/apimachinery/pkg/util/json.Unmarshal", unmarshal)
 	// DefaultUnstructuredConverter
